@@ -14,3 +14,59 @@ package beaconing
 //@   loop 1 invariant -1 <= rangeindex && rangeindex < len(pseg.ASEntries) && beta == seg.betaAt(pseg, pseg.Info.SegmentID, rangeindex+1)
 //@   modifies nothing
 //@   ensures result == seg.betaAt(pseg, pseg.Info.SegmentID, len(pseg.ASEntries))
+
+//@ import beacon "github.com/scionproto/scion/control/beacon"
+//@ import topology "github.com/scionproto/scion/private/topology"
+//@ import ifstate "github.com/scionproto/scion/control/ifstate"
+
+//@ # ---- C25, gate ordering in the beacon handler: a beacon reaches the store's InsertBeacon only after it passed
+//@ # the pre-filter, the AS-entry validation and the signature verification, in this call. Call log (ghost): the
+//@ # segment that most recently passed each gate.
+//@ ghost var okPre *seg.PathSegment
+//@ ghost var okVal *seg.PathSegment
+//@ ghost var okVer *seg.PathSegment
+//@ iface BeaconInserter.PreFilter
+//@   modifies okPre
+//@   ensures result == nil ==> okPre == beacon.Segment
+//@   ensures result != nil ==> okPre == old(okPre)
+//@ iface BeaconInserter.InsertBeacon
+//@   requires beacon.Segment != nil && okPre == beacon.Segment && okVal == beacon.Segment && okVer == beacon.Segment
+
+//@ # the last AS entry was written by the neighbour behind the ingress interface, for us, over a parent or core link
+//@ func (Handler).validateASEntry
+//@   props C25
+//@   requires intf != nil && b.Segment != nil && len(b.Segment.ASEntries) >= 1
+//@   modifies okVal
+//@   gset okVal := ite(result == nil, b.Segment, old(okVal))
+//@   let last = b.Segment.ASEntries[len(b.Segment.ASEntries)-1]
+//@   ensures result == nil ==> (intf.topoInfo.LinkType == topology.Parent || intf.topoInfo.LinkType == topology.Core)
+//@   ensures result == nil ==> last.Local == intf.topoInfo.IA && last.Next == h.LocalIA
+
+//@ # signature verification (C24) - not interpreted here: success is recorded in the call log
+//@ func (Handler).verifySegment
+//@   trusted
+//@   modifies okVer
+//@   gset okVer := ite(result == nil, segment, old(okVer))
+//@ func (Handler).updateMetric
+//@   trusted
+//@   modifies nothing
+//@ func (handlerLabels).WithResult
+//@   trusted
+//@   modifies nothing
+//@ func resultValue
+//@   trusted
+//@   modifies nothing
+//@ extern github.com/opentracing/opentracing-go.SpanFromContext
+//@   modifies nothing
+//@ import log "github.com/scionproto/scion/pkg/log"
+//@ extern github.com/scionproto/scion/pkg/log.FromCtx
+//@   modifies nothing
+//@   ensures result != nil
+//@ iface log.Logger.New
+//@   modifies nothing
+//@   ensures result != nil
+
+//@ func (Handler).HandleBeacon
+//@   props C25
+//@   # a beacon handed to the handler has passed seg.BeaconFromPB / Validate: it has at least one AS entry
+//@   requires b.Segment != nil && len(b.Segment.ASEntries) >= 1 && h.Inserter != nil && h.Interfaces != nil
